@@ -7,7 +7,8 @@ shutil.copy(patch, os.path.join(d, 'patch.diff'))
 shutil.copy(os.path.join(src, 'demo.py'), os.path.join(d, 'demo.py'))
 notes = open(os.path.join(src, 'notes.md')).read() if os.path.exists(os.path.join(src, 'notes.md')) else ''
 open(os.path.join(d, 'notes.md'), 'w').write(notes)
-log = open('/verif/out/seed_verify.log').read() + (open('/verif/out/seed_verify2.log').read() if os.path.exists('/verif/out/seed_verify2.log') else '')
+import glob
+log = ''.join(open(f).read() for f in sorted(glob.glob('/verif/out/seed_verify*.log')))
 ver = [l for l in log.splitlines() if l.startswith(src + ':')]
 first = ''
 m = re.search(r'(?im)^\**\s*(what .*manifest.*|needs.*|trigger.*)$', notes)
